@@ -889,6 +889,10 @@ def check(run):
             crashed.append((c, os_)); continue
         terms.append(t); kept.append((c, os_))
 
+    if os.environ.get("PK_C14_DUMP"):
+        json.dump([{"tag": c["tag"], "kind": c["kind"], "reqs": c["reqs"],
+                    "outs": [{k: v for k, v in o.items() if k != "tree"} for o in os_], "term": t}
+                   for (c, os_), t in zip(kept, terms)], open(os.environ["PK_C14_DUMP"], "w"))
     res = common.coq_eval(PROP, P.preamble(), terms, ["agree", "oracle"], shard=60, shard_chars=220000)
 
     # ---- verdict
